@@ -33,7 +33,8 @@ ASSUMPTIONS = ["float64 CPU, 1 thread", "scf_eps 1e-10 (SCF noise is 2-3 orders 
                "bitwise equality is demanded only between layouts that differ in padding coordinate values alone",
                "excited-state force comparison only when the active root is >= 0.05 eV from its neighbours"]
 REQUIRED_MONITORS = ["rows_compared", "padding_only_pairs", "swap_pairs", "cis_rows_compared", "md_rows_compared",
-                     "sp2_calls", "perm_layouts", "parser_calls_checked", "equal_norb_batches"]
+                     "sp2_calls", "perm_layouts", "parser_calls_checked", "equal_norb_batches", "finite_T_batches", "fermi_q_calls",
+                     "md_dof_ratio_rows", "md_dof_scale_vel_rows"]
 # thorough tier: cases not started after this many seconds are skipped and reported (env override for smoke tests)
 BUDGET_S = {"thorough": float(__import__("os").environ.get("VERIF_C05_BUDGET", "1700"))}
 CASE_TIMEOUT = 900.0
@@ -172,6 +173,74 @@ def _equal_norb_cases(g, tier):
     return out
 
 
+def _finite_T_cases(g, tier):
+    """Named cells: finite electronic temperature (scf_converger [0, alpha, "T_el", T] -> Fermi_Q builds the density), every
+    molecule alone vs in a padded batch, all orders.  The members that matter are the ones with padding orbital columns:
+    anions whose chemical potential lies above 0 eV (CH3-, NH2-, OH-, CN- next to a larger molecule) and neutral
+    molecules at high T_el."""
+    anion = {"CH3-": {"mol": "CH3.", "q": -1, "mult": 1}, "NH2-": {"mol": "NH2.", "q": -1, "mult": 1},
+             "OH-": {"mol": "OH-"}, "CN-": {"mol": "CN-"}}
+    if tier == "quick":
+        plan = [("AM1", 0.3, 1500.0, ["CH3-", "CH4"]), ("PM3", 0.3, 1500.0, ["NH2-", "NH3"]), ("MNDO", 0.2, 300.0, ["OH-", "CH4"]),
+                ("AM1", 0.3, 5000.0, ["H2O", "CH3OH", "HCN"]), ("PM3", 0.5, 5000.0, ["NH3", "C2H4"]),
+                ("AM1", 0.3, 1500.0, ["CN-", "CH3OH"])]
+    else:
+        plan = []
+        for method in ("AM1", "PM3", "MNDO", "PM6_SP"):
+            for T in (300.0, 1500.0, 5000.0):
+                for names in (["CH3-", "CH4"], ["NH2-", "NH3"], ["OH-", "CH4"], ["CN-", "CH3OH"], ["OH-", "H2O", "C2H4"],
+                              ["H2O", "CH3OH", "HCN"], ["NH3", "C2H4"], ["CH3-", "NH2-", "C2H6"]):
+                    plan.append((method, [0.2, 0.3, 0.5][len(plan) % 3], T, names))
+    out = []
+    for method, alpha, T, names in plan:
+        mem = []
+        for n in names:
+            d = dict(anion.get(n, {"mol": n}))
+            if not gen.available(d["mol"], method):
+                d = None
+                break
+            d["geom_seed"] = int(g.integers(0, 2**31))
+            mem.append(d)
+        if not mem or d is None:
+            continue
+        lay, exh = _layouts(g, len(mem), tier, 6)
+        out.append({"kind": "sp", "method": method, "conv": [0, alpha, "T_el", T], "sp2": None, "uhf": False, "grad": "autodiff",
+                    "members": mem, "layouts": lay, "perms_exhaustive": exh, "tag": "finite-T",
+                    "padfam": {"perm": [int(i) for i in g.permutation(len(mem))], "pad": int(g.integers(1, 4)),
+                               "seeds": [int(g.integers(0, 2**31)) for _ in range(2)]}})
+    return out
+
+
+def _md_dof_cases(g, tier):
+    """Named cells: a non-linear molecule alone vs batched with a diatomic (both orders), remove_com=('angular', 1):
+    (a) Temp > 0, velocities drawn by the engine - the draws differ between the two runs (different tensor shapes), so
+        what is compared is the per-molecule constant T(s)/Ek(s) = 2/(n_dof k_B) and T(0) = Temp;
+    (b) preset velocities + scale_vel=(3, T): the whole trajectory and the thermo rows."""
+    nonlin = ["H2O", "NH3", "CH4", "CH2O"]
+    dia = ["H2", "HF", "CO", "N2", "HCl"]
+    if tier == "quick":
+        plan = [("AM1", "drawn", 0), ("PM3", "scale_vel", 1), ("AM1", "scale_vel", 0), ("MNDO", "drawn", 1)]
+    else:
+        plan = [(m, mode, o) for m in ("AM1", "PM3", "MNDO", "PM6_SP") for mode in ("drawn", "scale_vel", "preset") for o in (0, 1)]
+    out = []
+    for method, mode, order in plan:
+        a = [x for x in nonlin if gen.available(x, method)]
+        b = [x for x in dia if gen.available(x, method)]
+        mem = [{"mol": a[int(g.integers(0, len(a)))], "geom_seed": int(g.integers(0, 2**31))},
+               {"mol": b[int(g.integers(0, len(b)))], "geom_seed": int(g.integers(0, 2**31))}]
+        if order:
+            mem = mem[::-1]
+        c = {"kind": "md", "method": method, "members": mem, "pad": int(g.integers(0, 2)), "padval": PADVALS[int(g.integers(0, 4))],
+             "remove_com": ["angular", 1], "steps": 8, "dt": 0.5, "vel_seed": int(g.integers(0, 2**31)), "zero_momentum": False,
+             "padfam": False, "seed": int(g.integers(0, 2**31)), "tag": "md-dof", "mode": mode}
+        if mode == "drawn":
+            c["temp"] = float(g.choice([150.0, 300.0, 600.0]))
+        if mode == "scale_vel":
+            c["scale_vel"] = [3, float(g.choice([200.0, 400.0]))]
+        out.append(c)
+    return out
+
+
 def gen_cases(tier, seed):
     g = gen.rng("C05", tier)
     cases = []
@@ -261,6 +330,8 @@ def gen_cases(tier, seed):
     sp.sort(key=lambda c: -len(c["layouts"]) * len(c["members"]))
     # drawn last from a generator of their own, so that the cases above are unchanged by this addition
     sp += _equal_norb_cases(gen.rng("C05", tier, "equal-norb"), tier)
+    sp += _finite_T_cases(gen.rng("C05", tier, "finite-T"), tier)
+    cases += _md_dof_cases(gen.rng("C05", tier, "md-dof"), tier)
     return sp[:3] + cases + sp[3:]
 
 
@@ -310,6 +381,15 @@ def setup_worker():
     w = MethodWrap(basics.Parser, "forward", hook)
     w.__enter__()
     _G["parser_wrap"] = w
+    # call counter on the finite-temperature density builder (evidence that the T_el cells really took that path)
+    _G["fermi_q_calls"] = 0
+    orig_fq = getattr(scf_loop, "Fermi_Q", None)
+    if orig_fq is not None:
+        def fq(*a, **k):
+            _G["fermi_q_calls"] += 1
+            return orig_fq(*a, **k)
+
+        scf_loop.Fermi_Q = fq
 
 
 def _norb(Z, method):
@@ -334,7 +414,8 @@ def _member(m):
     Xd = Xd - Xd.mean(axis=0)
     R = gen.generic_rotation(Xd, np.random.default_rng(m["geom_seed"] + 7))
     Xd = Xd @ R.T
-    return {"name": m["mol"], "Z": Z, "X": Xd, "q": q, "mult": mult}
+    # optional overrides (e.g. CH3- / NH2- built from the radical's geometry)
+    return {"name": m["mol"] + ("(%+d)" % m["q"] if "q" in m else ""), "Z": Z, "X": Xd, "q": m.get("q", q), "mult": m.get("mult", mult)}
 
 
 def _settings(case, excited=None, active=0):
@@ -528,6 +609,11 @@ def _run_sp(case):
     base_cell = "%s/conv%s/sp2=%s/%s/%s" % (case["method"], "-".join(str(x) for x in case["conv"]), case.get("sp2"),
                                              "UHF" if case.get("uhf") else "RHF", case["grad"])
     acc.cells.add(base_cell)
+    if case.get("tag") == "finite-T":
+        acc.cells.add("finite-T/T_el=%g/%s/%s" % (case["conv"][3], case["method"],
+                                                 "anion" if any(m["q"] < 0 for m in mems) else "neutral"))
+        acc.count("finite_T_batches")
+        fq0 = _G.get("fermi_q_calls", 0)
     if case.get("tag") == "equal-norb":
         norbs = sorted({_norb(m["Z"], case["method"]) for m in mems})
         splits = sorted({"%dheavy+%dH" % (sum(1 for z in m["Z"] if z > 1), sum(1 for z in m["Z"] if z == 1)) for m in mems})
@@ -687,6 +773,8 @@ def _run_sp(case):
                 if acc.upd("swap_other_rows_dE", d, tol["E"]):
                     acc.viol.append({"clause": "swap-changes-other-row", "mech": None,
                                      "detail": {"swap": sw, "members": case["members"], "row": j, "value": d}})
+    if case.get("tag") == "finite-T":
+        acc.count("fermi_q_calls", _G.get("fermi_q_calls", 0) - fq0)
     if dw:
         acc.count("diis_condition_checks_observed", dw.seen - diis_seen0)
     if lg:
@@ -814,10 +902,11 @@ def _md_run(case, S, C, V, mols, prefix, mon):
             mol, es, s2 = run.build(S, C, sett, float(mols[0]["q"]), float(mols[0]["mult"]))
         else:
             mol, es, s2 = run.build(S, C, sett, [float(m["q"]) for m in mols], [float(m["mult"]) for m in mols])
-        mol.velocities = run.tens(V).clone()
+        if V is not None:
+            mol.velocities = run.tens(V).clone()
         out = {"molid": list(range(len(S))), "prefix": prefix, "print every": 0, "checkpoint every": 0, "xyz": 0,
                "h5": {"data": 1, "coordinates": 1, "velocities": 1, "forces": 1}}
-        md = Molecular_Dynamics_Basic(s2, timestep=case["dt"], Temp=0.0, output=out)
+        md = Molecular_Dynamics_Basic(s2, timestep=case["dt"], Temp=float(case.get("temp", 0.0)) if V is None else 0.0, output=out)
         pad = (mol.species == 0)
         orig = Molecular_Dynamics_Basic._zero_com
 
@@ -832,7 +921,8 @@ def _md_run(case, S, C, V, mols, prefix, mon):
         Molecular_Dynamics_Basic._zero_com = zc
         try:
             rc = case["remove_com"]
-            md.run(mol, case["steps"], remove_com=tuple(rc) if rc else None, seed=1)
+            kw = {"scale_vel": tuple(case["scale_vel"])} if case.get("scale_vel") else {}
+            md.run(mol, case["steps"], remove_com=tuple(rc) if rc else None, seed=1, **kw)
         finally:
             Molecular_Dynamics_Basic._zero_com = orig
     return mol
@@ -857,6 +947,9 @@ def _run_md(case):
     alt_cache = {}
     mems = [_member(m) for m in case["members"]]
     vels = [_velocities(m, case["vel_seed"] + 13 * k, case["zero_momentum"]) for k, m in enumerate(mems)]
+    drawn = case.get("mode") == "drawn"
+    if case.get("tag") == "md-dof":
+        acc.cells.add("md-dof/%s/%s/%s-first" % (case["method"], case["mode"], "diatomic" if len(mems[0]["Z"]) == 2 else "nonlinear"))
     cell = "md/%s/remove_com=%s/pad=+%d/padval=%s/zeroP=%s" % (case["method"], case["remove_com"], case["pad"], case["padval"],
                                                              case["zero_momentum"])
     acc.cells.add(cell)
@@ -864,11 +957,11 @@ def _run_md(case):
         alone = []
         mon_alone = {}
         for k, m in enumerate(mems):
-            _md_run(case, [m["Z"]], [m["X"].tolist()], [vels[k].tolist()], [m], os.path.join(d, "a%d" % k), mon_alone)
+            _md_run(case, [m["Z"]], [m["X"].tolist()], None if drawn else [vels[k].tolist()], [m], os.path.join(d, "a%d" % k), mon_alone)
             alone.append(_read_h5(os.path.join(d, "a%d.0.h5" % k)))
         S, C = _batch_arrays(mems, case["pad"], case["padval"], case["seed"])
         M = len(S[0])
-        Vb = [np.vstack([vels[k], np.zeros((M - len(vels[k]), 3))]).tolist() for k in range(len(mems))]
+        Vb = None if drawn else [np.vstack([vels[k], np.zeros((M - len(vels[k]), 3))]).tolist() for k in range(len(mems))]
         mon_b = {}
         dw = _G.get("diis")
         if dw:
@@ -892,6 +985,23 @@ def _run_md(case):
             acc.viol.append({"clause": "md-row-shape", "mech": None, "detail": dict(det, row=k, alone=list(a["x"].shape), batch=list(b["x"].shape))})
             continue
         acc.count("md_steps_compared", len(a["steps"]))
+        if drawn:
+            # engine-drawn velocities differ between the two runs; T(s)/Ek(s) = 2/(n_dof k_B) is a constant of the molecule
+            ra, rb = a["T"] / a["Ek"], b["T"] / b["Ek"]
+            dev = float(max(np.abs(ra / ra[0] - 1).max(), np.abs(rb / ra[0] - 1).max()))
+            t0 = float(max(abs(a["T"][0] / case["temp"] - 1), abs(b["T"][0] / case["temp"] - 1)))
+            acc.count("md_dof_ratio_rows")
+            bad = {}
+            if acc.upd("md_T_over_Ek_alone_vs_batch", dev, 1e-9):
+                bad["T_over_Ek"] = {"alone": float(ra[0]), "batch": float(rb[0]), "relative_deviation": dev}
+            if acc.upd("md_T0_equals_Temp", t0, 1e-8):
+                bad["T0"] = {"alone": float(a["T"][0]), "batch": float(b["T"][0]), "Temp": case["temp"]}
+            if bad:
+                acc.viol.append({"clause": "md-temperature-bookkeeping-depends-on-batch-mates", "mech": None,
+                                 "detail": dict(det, row=k, mol=m["name"], differences=bad, natoms=len(m["Z"]))})
+            continue
+        if case.get("scale_vel"):
+            acc.count("md_dof_scale_vel_rows")
         bad, loc = {}, {}
         for key, t, name in (("x", TOL_MD_X, "coordinates"), ("v", TOL_MD_V, "velocities"), ("f", A_F, "forces"),
                              ("Ep", TOL_MD_E, "Ep"), ("Ek", TOL_MD_E, "Ek"), ("T", 1e-4, "T")):
